@@ -2,29 +2,52 @@ from config.common import NOTE_COMMON
 
 CONFIG = dict(
     pkg="c17", level="exploration",
-    technique="rapid-generated request/unregister histories against a running seeder; reference model of the session table and of the per-session item stream",
+    technique=("rapid-generated request/unregister histories against a running seeder, one operation at a time and with overlapping "
+               "requests while SendChunk is held back; reference model of the session table and of the per-session item stream"),
     level_text=("Generated histories (1-3 peers, five session IDs per peer, integer item universe with gaps, request limits "
                 "0/1/2/5/unlimited, 0..limit chunks, resumed sessions, unregistrations, held-back SendChunk) are replayed "
                 "against the real seeder; after each operation the harness waits for quiescence and compares the responses "
-                "with a session-table model written from the property text."),
-    level_note=NOTE_COMMON + (" The reader loop is asynchronous: operations are issued one at a time and the harness waits for a "
-                              "sentinel request of a private peer to be reached (40 round trips after UnregisterPeer), so overlapping "
-                              "operations of different peers inside the seeder's queues are not explored. The pending-memory clause is "
+                "with a session-table model written from the property text. A second unit overlaps requests: SendChunk of one or "
+                "more peers is held back (per-peer gates, single calls let through) with 1-4 sender threads while further requests "
+                "resume the same sessions or serve sessions of the same and of other (held-back or free) peers; only the reader "
+                "loop is awaited between requests, responses are collected and checked when the gates are opened."),
+    level_note=NOTE_COMMON + (" The reader loop is asynchronous: TestC17Sessions issues operations one at a time and waits for a "
+                              "sentinel request of a private peer to be reached (40 round trips after UnregisterPeer) and for the responses; "
+                              "TestC17Pipelined waits for the reader loop only, so responses of several requests, sessions and peers overlap "
+                              "in the sender queues, but requests are still submitted by one goroutine and unregistrations happen between "
+                              "windows (all responses sent). The driver never lets the reader loop block while a gate is closed (a request is "
+                              "issued only if its responses fit into one sender queue and under the pending limit, else the gates are opened "
+                              "first); a 2 s stall would open the gates (never observed). The pending-memory clause is "
                               "bounded from outside (responses handed to the sender whose SendChunk has not returned), which is a "
                               "lower bound of the private counter."),
-    rule=("One case = one history of 4-30 operations on a fresh seeder with drawn configuration (1-3 sender threads, sender queue "
+    rule=("One case = one history of 4-30 operations on a fresh seeder with drawn configuration (1-4 sender threads, sender queue "
           "1/4/64, pending limit 1/20/60/unbounded, response limits). Oracle: per peer at most three live sessions, the oldest is "
           "dropped only when a new session is opened while three are held, unregister clears; each session delivers the items of "
           "[start,stop) in order without gaps or repeats, exactly one Done when everything was delivered, nothing after Done, at "
           "most the requested number of chunks, each payload <= item limit + 1 and size limit + one item; selector mismatch -> one "
           "Misbehaviour and no response; MaxChunks above the configured limit -> ErrTooManyChunks; outstanding response memory <= "
           "limit - 1 + largest response. Non-trivial = a session that was served by at least two requests while its peer held "
-          "three sessions; distinct by hash of universe, configuration and the full history with responses."),
-    assumptions=["requests are issued one at a time (quiescence between operations)",
+          "three sessions; distinct by hash of universe, configuration and the full history with responses. "
+          "TestC17Pipelined: one case = 1-4 windows of 3-10 requests on a fresh seeder (1-4 sender threads uniformly, sender queue "
+          "4/16/64, pending limit 150/600/unbounded, 1-3 peers each held back with probability 0.65 per window, sentinel opening a new "
+          "session per barrier or resuming one endless session, which varies the assignment of sessions to sender threads). Same "
+          "model oracle per request (requests checked in issue order with the responses produced for them, attributed by the "
+          "ForEachItem calls seen between two sentinels), plus: every produced response reaches SendChunk of its peer exactly once, and "
+          "for each session the order in which SendChunk is CALLED (recorded at entry) equals the order in which its responses were "
+          "produced, i.e. the items of the session arrive in order across requests. Non-trivial = a session is resumed and served by "
+          "a request while at least two of its earlier responses have not been sent yet."),
+    assumptions=["TestC17Sessions: requests are issued one at a time (quiescence between operations)",
+                 "TestC17Pipelined: requests are submitted by one goroutine (their order in the request channel is the issue order); "
+                 "calls of SendChunk for one session are serialized (one sender thread per session), so the order of call entries is well defined",
+                 "SendChunk blocks only as long as the harness gate of its peer is closed and returns nil; sender queue and pending limit are "
+                 "ample for what is queued while a gate is closed",
+                 "a short pause (0.3 ms steps until no SendChunk call starts or ends) lets sender threads start the calls they can; it only "
+                 "affects how much the scenarios overlap, never a verdict",
                  "ForEachItem is implemented the documented way (onKey before adding an item, onAppended after)",
                  "after UnregisterPeer, 40 sentinel round trips mean the unregistration was consumed (failure probability 2^-40)"],
     units=[
         dict(test="TestC17Regression", kind="plain"),
         dict(test="TestC17Sessions", quick=200, thorough=32000, shards=16),
+        dict(test="TestC17Pipelined", quick=150, thorough=16000, shards=16),
     ],
 )
